@@ -720,6 +720,19 @@ func (e *Engine) resolveCall(st *State, f *Frame, c *ssa.CallCommon) (Value, []V
 			}
 			unm("method %s on opaque %s", c.Method.Name(), op.kind)
 		}
+		// a pointer to an engine-managed object (e.g. a modelled redis client)
+		if rp, ok := recv.v.(Ptr); ok && !rp.IsNil() && len(rp.path) == 0 {
+			if op, ok := st.heap.objs[rp.obj].(OpaqueV); ok {
+				key := "opaque:" + op.kind + "." + c.Method.Name()
+				if _, ok := e.intr[key]; ok {
+					args = append(args, recv)
+					for _, a := range c.Args {
+						args = append(args, e.eval(st, f, a))
+					}
+					return FuncV{intr: key}, args, ""
+				}
+			}
+		}
 		fn := e.prog.LookupMethod(recv.t, c.Method.Pkg(), c.Method.Name())
 		if fn == nil {
 			unm("no method %s on %v", c.Method.Name(), recv.t)
